@@ -90,12 +90,21 @@ func genC15(w *World, res *CheckResult) {
 	res.Obls = append(res.Obls, obls...)
 	res.Assumptions = append(res.Assumptions, notes...)
 	g := genRun(w)
-	res.Obls = append(res.Obls, selectObls(g.obls, `\[(OpEqual|OpEqualInt|OpEqualString|OpFetch|OpFetchNilSafe|OpFetchMap|OpPush)\]/post\[(value|operand-type|below|stack|ip)\]$`, `^vm\.VM\.Run/pre-sat$`, `\[(OpEqual|OpEqualInt|OpEqualString|OpFetch|OpFetchNilSafe|OpFetchMap|OpPush)\]/cover$`)...)
+	res.Obls = append(res.Obls, selectObls(g.obls, `\[(OpEqual|OpEqualInt|OpEqualString|OpFetch|OpFetchNilSafe|OpFetchMap|OpPush)\]/post\[(value|operand-type|below|stack|ip)\]$`, `\[(OpCallFast|OpCall)\]/(env-call:args-not-owned|post\[(stack|ip)\])$`, `\[(OpCallFast|OpCall)\]/cover$`, `^vm\.VM\.Run/pre-sat$`, `\[(OpEqual|OpEqualInt|OpEqualString|OpFetch|OpFetchNilSafe|OpFetchMap|OpPush)\]/cover$`)...)
 	res.Assumptions = append(res.Assumptions, g.notes...)
 	res.Functions = append(res.Functions, g.funcs...)
 	res.Obls = append(res.Obls, selectObls(genPureAll(w), `^vm\.equal/`)...)
 	res.Functions = append(res.Functions, "vm.equal", "compiler.compiler.BinaryNode", "compiler.compiler.IdentifierNode", "compiler.compiler.IntegerNode")
 	verifyInit(w, res, "compiler")
+	// the optimizer's type-directed rewrites fire only for operands of exactly the type they are valid for
+	{
+		tmp := &CheckResult{}
+		genInRange(w, tmp)
+		genInArray(w, tmp)
+		res.Obls = append(res.Obls, selectObls(tmp.Obls, `/post:(int|string)-guard$`, `/cover:rewrites$`)...)
+		res.Functions = append(res.Functions, tmp.Functions...)
+		verifyInit(w, res, "optimizer")
+	}
 	res.Assumptions = append(res.Assumptions,
 		"typing assumption (trusted; C03's soundness restricted to two types): a child whose static type is exactly int (string) evaluates to an int (string) cell",
 		"fragment: `==` (OpEqualInt / OpEqualString against vm.equal), integer literals (typed push = Go conversion of the literal to the static kind), identifiers (OpFetchMap is selected exactly when the environment is declared a map; that map indexing agrees with vm.fetch on a map is not decided: reflect.Value.MapIndex is outside the engine's library model)",
